@@ -875,7 +875,7 @@ fn bus_run(src: &mut Source, obs: &mut Observer, steps: usize) -> Result<(), Vio
     let base_backlog = bus.verif_backlog_len();
     let mut rounds = 0;
     loop {
-        let op = src.next_op(|r| if rounds >= steps { None } else { Some(Op::ka(k, r.range(1, 4))) });
+        let op = src.next_op(|r| if rounds >= steps { None } else { Some(Op::ka(k, if steps > 1000 { 8 } else { r.range(1, 4) })) });
         let Some(op) = op else { break };
         if op.k != k {
             src.skip_last();
@@ -985,7 +985,9 @@ impl Scenario for AllocScenario {
         }
         obs.note((row as u64) << 32 | (p.n as u64) << 16 | (p.cap as u64) << 8 | p.len as u64);
         if row == OPS.len() - 1 {
-            return bus_run(src, obs, steps.min(200));
+            // rarely: enough lock-step rounds to push more than 2^16 frames through the bus
+            let very_long = src.cfg("bus_very_long", 0, 1, |r| r.chance(1, 12) as i64) == 1;
+            return bus_run(src, obs, if very_long { 12_000 } else { steps.min(200) });
         }
         let mut prog = BUILDERS[row](&p);
         if OPS[row].name.contains("Vec") || OPS[row].name.contains("Box") {
